@@ -63,7 +63,7 @@ Next ==
             /\ Un(<<size, maxwait, taken, tt, srcState, cancelled, held, srcClosed>>)
        [] Ev.ev = "q" ->          \* nothing can move: a pending call must be one the property lets wait
             /\ \A i \in Ids :
-                 IF pend[i].op = "Close" THEN FALSE                      \* Close always returns
+                 IF pend[i].op = "Close" THEN held                       \* Close always returns - once a held full() callback does
                  ELSE \/ closed >= 1 \/ held
                       \/ /\ pend[i].ctx \notin cancelled
                          /\ ~FullReady                                    \* a full batch is handed to a waiting consumer
